@@ -129,35 +129,15 @@ def run(ctx, rep):
                         rep.finding(R2, f'C09.R2/{mod}:{qn}/{n.value}', m.loc(mod, n), qn,
                                     f'reads the search option {n.value} outside the reviewed choice functions: the outcome could depend on it')
     rep.floor('C09.R2', 'option reads', nread, 3)
-    sb = m.func(TAB, 'Rule._select_best_target')
-    rets = [r for r in ast.walk(sb) if isinstance(r, ast.Return) and r.value is not None]
-    loopvars = {n.target.id for n in ast.walk(sb) if isinstance(n, ast.For) and isinstance(n.target, ast.Name) and astq.u(n.iter) == 'targets'}
-    ok = bool(rets) and all(isinstance(r.value, ast.Name) and r.value.id in loopvars for r in rets)
-    rep.instance(R2, ok=ok, nontrivial='_select_best_target')
-    rep.consult(m.loc(TAB, sb) + ' Rule._select_best_target')
-    if not ok:
-        rep.finding(R2, 'C09.R2/_select_best_target/choice', m.loc(TAB, sb), 'Rule._select_best_target', 'no longer returns one of the given targets')
-    so = m.func(TAB, 'Tableau._select_optim_group_application')
-    rets = [r for r in ast.walk(so) if isinstance(r, ast.Return) and r.value is not None]
-    ok = bool(rets) and all(astq.u(r.value) == 'entry' for r in rets) and 'zip(group_scores, entries)' in astq.u(so) and \
-        'group_score == max_group_score' in astq.u(so)
-    rep.instance(R2, ok=ok, nontrivial='_select_optim_group_application')
-    if not ok:
-        rep.finding(R2, 'C09.R2/_select_optim_group_application/choice', m.loc(TAB, so), 'Tableau._select_optim_group_application', 'no longer returns the first maximal-score entry of the given entries')
-    ga = m.func(TAB, 'Tableau._get_group_application')
-    txt = astq.u(ga)
-    ok = 'target = rule.target(branch)' in txt and 'entry = Tableau.StepEntry(rule, target, Counter())' in txt and \
-        'return self._select_optim_group_application(results)' in txt and 'for rule in group' in txt
-    rep.instance(R2, ok=ok, nontrivial='_get_group_application')
-    rep.consult(m.loc(TAB, ga) + ' Tableau._get_group_application')
-    if not ok:
-        rep.finding(R2, 'C09.R2/_get_group_application/choice', m.loc(TAB, ga), 'Tableau._get_group_application', 'the step entry is no longer a (rule, rule.target(branch)) pair of the given group')
-    tg = m.func(TAB, 'Rule.target')
-    txt = astq.u(tg)
-    ok = 'targets = self._get_targets(branch)' in txt and 'self._extend_targets(targets)' in txt and 'return self._select_best_target(targets)' in txt
-    rep.instance(R2, ok=ok, nontrivial='Rule.target')
-    if not ok:
-        rep.finding(R2, 'C09.R2/Rule.target', m.loc(TAB, tg), 'Rule.target', 'no longer: _get_targets -> _extend_targets -> _select_best_target')
+    # the choice functions, folded over mock rules/targets for every option value
+    from .. import search
+    for fold in (search.fold_rule_target, search.fold_group_application):
+        res, cons = fold(m)
+        rep.consult(*cons)
+        for ok, case, detail in res:
+            rep.instance(R2, ok=ok, sample=dict(fold=fold.__name__, case=case), nontrivial=(fold.__name__, case))
+            if not ok:
+                rep.finding(R2, f'C09.R2/{fold.__name__[5:]}/{case}', cons[0].split(' ')[0], fold.__name__[5:], f'{case}: {detail}')
     # group_score / score_candidate implementations must not write to targets or branches
     nsc = 0
     for mod, qn, fn in astq.iter_functions(m):
